@@ -580,12 +580,12 @@ def wire_field_cases(ctx, cases, meta):
                 obs, conn = sessdrv.run_spec(proxy, sessdrv.default_spec(spliced, ts=eng.clock.t), dumps=False)
                 processed = len(proxy.calls) > ncalls
                 sent = b''.join(obs['frames'][0]['sent']) if obs['frames'] else b''
-                cases.append('CFieldRead %s %s %s %s' % (cp.string(name), cver(v), cp.string(t), cp.boolean(processed)))
+                cases.append('CWireField %s %s %s %s' % (cp.string(name), cver(v), cp.string(t), cp.boolean(processed)))
                 meta.append(('wire-field', name, t, v))
                 ctx.case_seen(('wire-field', name, t, v))
                 ctx.count('wire-field.%s' % ('processed' if processed else 'refused'))
                 if processed:
-                    ctx.violation({'class': 'field-accepted', 'payload': name, 'tag': t, 'version': '%d.%d' % v, 'via': 'session'},
+                    ctx.violation({'class': 'field-accepted', 'payload': name, 'tag': t, 'version': '%d.%d' % v, 'via': 'session', 'site': 'read() of ' + name},
                                   {'class': name, 'tag': t, 'request_version': v, 'request_hex': spliced.hex(), 'answer_hex': sent.hex()[:400],
                                    'operation': op.name if op else 'ACTIVATE'},
                                   'a KMIP %d.%d request carrying %s (%s, introduced in KMIP %d.%d) is decoded by the session and handed to the engine' % (
